@@ -241,7 +241,7 @@ def load_known(pid):
 def default_sig(case, label):
     s = case['s']
     parts = [case['scen']]
-    for k in ('op', 'kind', 'how', 'skind', 'variant'):
+    for k in ('op', 'kind', 'how', 'skind', 'variant', 'prelude', 'history'):
         if k in s:
             parts.append('%s=%s' % (k, s[k]))
     parts.append(label)
